@@ -8,7 +8,7 @@ P="$HERE/seeded/$D/patch.diff"
 REPO="${VERIF_REPO:-/repo}"
 [ -f "$P" ] || { echo "no $P"; exit 2; }
 if ! git -C "$REPO" diff --quiet; then echo "$REPO has uncommitted changes"; exit 2; fi
-git -C "$REPO" apply "$P" || { echo "patch does not apply"; exit 2; }
+git -C "$REPO" apply "$P" || { echo "$D - ERROR(patch): patch does not apply to the current tree"; exit 2; }
 trap 'git -C "$REPO" checkout -- . ; git -C "$REPO" clean -fdq -- mla/tests 2>/dev/null' EXIT
 CHECKS="$*"
 [ -n "$CHECKS" ] || CHECKS=$(python3 -c "import json;print(' '.join(json.load(open('$HERE/seeded/$D/meta.json')).get('run_checks',[])))")
